@@ -795,6 +795,11 @@ def replay(run: lib.Run, audit: dict, path: str) -> int:
         check_concurrent(r2, mod)
         print("spec failures:", r2.spec_failures[:1])
         return 1 if r2.spec_failures else 0
+    if c.get("kind") == "midcall":
+        r2 = lib.Run(run.prop, run.tier, run.seed)
+        check_midcall(r2, mod)
+        print("spec failures:", r2.spec_failures[:1])
+        return 1 if r2.spec_failures else 0
     fault = awtrace.Fault.from_json(c.get("fault"))
     impl = run_fault_case(mod, c["scenario"], fault, c["mechanism"])
     program = audit["facts"]["atomic_write_program"]
